@@ -20,7 +20,7 @@ def cfgNow : Cfg :=
   { chanCap := Logrange.Generated.C10.weChanCap
     dropOnCreate := Logrange.Generated.C10.createDropsCache
     dropOnDelete := Logrange.Generated.C10.deleteDropsCache
-    applyFilter := decide (0 < Logrange.Generated.C10.fltFUseSites)
+    applyFilter := Logrange.Generated.C10.filterAppliedBySourceIterator
     rearm := Logrange.Generated.C10.workerDoneRearms }
 
 def isInfix (needle : Bytes) : Bytes → Bool
